@@ -455,6 +455,23 @@ pub fn gen_c07(r: &mut Rng, tier: Tier) -> Case {
             }
         }
     }
+    // now and then failing files come in bulk (more than any internal window, queue or batch size
+    // is likely to be): unreadable, not UTF-8, or not Rust
+    if r.chance(1, 60) {
+        let n = *r.pick(&[70usize, 140, 300]);
+        let dir = r.pick(&world.crates).dir.clone();
+        let kind = r.below(3);
+        for i in 0..n {
+            let path = format!("{dir}/src/mass/m_{i}.rs");
+            notes.push(format!("edge:mass_{kind}:{path}:any"));
+            tree.push(match kind {
+                0 => SrcFile { path, kind: FileKind::DanglingSymlink, chunks: vec![], raw_hex: String::new() },
+                1 => SrcFile { path, kind: FileKind::Text, chunks: vec![], raw_hex: "fffe00".into() },
+                _ => SrcFile::text(&path, vec!["use typeshare::typeshare;\n".into(), format!("#[typeshare]\npub struct Broken{i} {{\n    pub a: u32,\n")]),
+            });
+        }
+        tree.sort_by(|a, b| a.path.cmp(&b.path));
+    }
     // a file name that is not valid UTF-8 (Latin-1 e-acute), sometimes
     if r.chance(1, 10) {
         let idx: Vec<usize> = tree.iter().enumerate().filter(|(_, f)| f.kind == FileKind::Text && f.path.ends_with(".rs") && f.path.contains("/src/")).map(|(i, _)| i).collect();
@@ -637,7 +654,7 @@ fn eval_c07(case: &Case, sc: &mut Scratch, res: &mut EvalResult) {
             ResultClass::NoProgress => push(
                 "NO_PROGRESS",
                 ctxs.clone(),
-                format!("invocation did not finish within {} adversarial + {} fair steps", crate::sched::N_ADV, crate::sched::N_FAIR),
+                format!("invocation did not finish within its step budget ({} adversarial steps, then fair round-robin: {} steps or {} per source file)", crate::sched::N_ADV, crate::sched::N_FAIR, crate::sched::FAIR_PER_FILE),
             ),
             ResultClass::Crashed => {}
             ResultClass::Ok => {
@@ -764,6 +781,14 @@ fn eval_c07(case: &Case, sc: &mut Scratch, res: &mut EvalResult) {
 fn gen_preseed(r: &mut Rng, lang: &str, mode: &Mode, world: &World) -> Vec<(String, String)> {
     let mut v = vec![];
     if !r.chance(1, 3) {
+        // the output location prepared by a build step: it exists and is empty (a name ending in
+        // '/' stands for a directory), sometimes with an empty sub-directory of someone else's
+        if r.chance(1, 4) {
+            v.push(("./".to_string(), String::new()));
+            if r.chance(1, 3) {
+                v.push(("kept-for-later/".to_string(), String::new()));
+            }
+        }
         return v;
     }
     let contents = [
@@ -825,6 +850,10 @@ fn apply_preseed(case: &Case, out: &Path) {
     let _ = std::fs::create_dir_all(out);
     for (name, content) in &case.preseed {
         let p = out.join(name);
+        if name.ends_with('/') {
+            let _ = std::fs::create_dir_all(&p);
+            continue;
+        }
         if let Some(parent) = p.parent() {
             let _ = std::fs::create_dir_all(parent);
         }
@@ -894,7 +923,17 @@ pub fn gen_c08(r: &mut Rng, tier: Tier) -> Case {
         String::new()
     };
     let with_companion = |t: String| if companion.is_empty() { t } else { format!("{companion}{t}") };
-    let poison_text = with_companion(wrap(&p.poison, depth));
+    // now and then the construct comes in bulk (more rejected items than any internal limit, window
+    // or batch size is likely to be)
+    let mass: usize = if r.chance(1, 60) { *r.pick(&[70usize, 300]) } else { 1 };
+    let mult = |t: &str| -> String {
+        if mass == 1 || !(t.contains("Pz") || t.contains("PZ")) {
+            t.to_string()
+        } else {
+            (0..mass).map(|i| t.replace("Pz", &format!("Pz{i}q")).replace("PZ", &format!("PZ{i}Q"))).collect()
+        }
+    };
+    let poison_text = with_companion(wrap(&mult(&p.poison), depth));
     // the skip marker in one of its equivalent spellings
     let spell = |r: &mut Rng, s: &str| -> String {
         let alts = [
@@ -915,7 +954,7 @@ pub fn gen_c08(r: &mut Rng, tier: Tier) -> Case {
             s.replacen("#[typeshare(skip)]", &a, 1)
         }
     };
-    let skipped_text = p.skipped.as_deref().map(|s| with_companion(wrap(&spell(r, s), depth)));
+    let skipped_text = p.skipped.as_deref().map(|s| with_companion(wrap(&mult(&spell(r, s)), depth)));
     let mut poisoned = good.clone();
     // same planting position for the poisoned and the skipped variant
     let mut r2 = r.clone();
@@ -1438,6 +1477,9 @@ pub fn evaluate(case: &Case, base: &Path, name: &str) -> EvalResult {
     *res.stats.ops_per_case.entry(case.ops.len()).or_insert(0) += 1;
     if !case.preseed.is_empty() {
         *res.stats.fired.entry("preexisting_output_files(cases)".to_string()).or_insert(0) += 1;
+    }
+    if case.preseed.iter().any(|p| p.0.ends_with('/')) {
+        *res.stats.fired.entry("preexisting_empty_output_directory(cases)".to_string()).or_insert(0) += 1;
     }
     if case.versions.iter().any(|t| t.iter().any(|f| f.kind == FileKind::SymlinkToFile)) {
         *res.stats.fired.entry("symlinked_source_file(cases)".to_string()).or_insert(0) += 1;
